@@ -20,6 +20,7 @@ import (
 	tmproto "github.com/cometbft/cometbft/proto/tendermint/types"
 	sdk "github.com/cosmos/cosmos-sdk/types"
 	authtypes "github.com/cosmos/cosmos-sdk/x/auth/types"
+	banktypes "github.com/cosmos/cosmos-sdk/x/bank/types"
 )
 
 var msgTypes = []string{"send", "multisend", "custody_send", "register_identity_records", "set_network_properties", "upsert_token_info", "set_execution_fee", "ethereum_tx"}
@@ -542,6 +543,159 @@ func main() {
 			if !paid.IsZero() {
 				dist.Inc("payback:nonzero")
 			}
+		}
+	}
+
+	// ---- keeper level: whole payment / refund histories of several payers (ghost-ledger cases)
+	{
+		hdr := tmproto.Header{Height: height + 1, Time: time.Unix(1700000000+(height+1)*6, 0).UTC(), ProposerAddress: proposer}
+		base := app.BaseApp.NewContext(false, hdr)
+		fk := app.FeeProcessingKeeper
+		nled := *n / 2
+		if nled < 40 {
+			nled = 40
+		}
+		type lop struct {
+			kind  string // pay refund exec end
+			payer string
+			coins sdk.Coins
+			ok    bool
+		}
+		for i := 0; i < nled; i++ {
+			ctx, _ := base.CacheContext()
+			c := randCfg(r, false)
+			pattern := i % 8
+			if pattern < 6 { // exhaustion patterns are expressed in the native token at rate 1
+				c.Tokens = []c09lib.Tok{{Denom: "ukex", Rate: sdk.NewDec(1), FeeEnabled: true}}
+				if r.Chance(40) {
+					c.Tokens = append(c.Tokens, c09lib.Tok{Denom: "ubtc", Rate: sdk.NewDec(10), FeeEnabled: true})
+				}
+			} else {
+				for j := range c.Tokens {
+					if !c.Tokens[j].Rate.IsPositive() && r.Chance(70) {
+						c.Tokens[j].Rate = sdk.NewDec(2)
+					}
+				}
+			}
+			ef := []uint64{100, 0}
+			switch pattern {
+			case 3:
+				ef = []uint64{0, 100} // successful executions are returned failure - execution
+			case 4:
+				ef = []uint64{uint64(50 + r.Intn(100)), 0}
+			case 5, 6, 7:
+				ef = []uint64{uint64(r.Intn(300)), uint64(r.Intn(300))}
+			}
+			c.Exec = []c09lib.ExecFee{{Type: "send", Execution: ef[0], Failure: ef[1]}}
+			if err := e.Apply(ctx, c); err != nil {
+				panic(err)
+			}
+			ctx.KVStore(app.GetKey("feeprocessing")).Delete([]byte("execution_status"))
+			var payers []string
+			for j := 0; j < 2+r.Intn(2); j++ {
+				nm, addr := e.Stranger(10000 + i*4 + j)
+				payers = append(payers, nm)
+				e.Fund(ctx, addr, rich)
+			}
+			e.FundCollector(ctx, rich)
+			lw := append(append([]string{}, payers...), c09lib.Collector)
+			p0 := payers[0]
+			ukex := func(v int64) sdk.Coins { return sdk.NewCoins(sdk.NewInt64Coin("ukex", v)) }
+			var ops []lop
+			switch pattern {
+			case 0: // refund due >= recorded value, then further refunds in the same and a later block
+				ops = []lop{{"pay", p0, ukex(100), false}, {"refund", p0, ukex(900), false}, {"refund", p0, ukex(50), false}, {"end", "", nil, false}, {"refund", p0, ukex(100), false}}
+			case 1: // several refunds summing exactly to the total, then one more
+				ops = []lop{{"pay", p0, ukex(100), false}, {"refund", p0, ukex(60), false}, {"refund", p0, ukex(40), false}, {"refund", p0, ukex(10), false}, {"pay", payers[1], ukex(30), false}, {"refund", payers[1], ukex(30), false}, {"refund", payers[1], ukex(30), false}}
+			case 2: // failure fee 0: a failed execution is returned the whole execution fee, twice over two blocks
+				ops = []lop{{"pay", p0, ukex(100), false}, {"exec", p0, nil, false}, {"end", "", nil, false}, {"exec", p0, nil, false}, {"end", "", nil, false}}
+			case 3: // execution fee 0, failure fee 100: successful executions
+				ops = []lop{{"pay", p0, ukex(100), false}, {"exec", p0, nil, true}, {"end", "", nil, false}, {"exec", p0, nil, true}, {"exec", p0, nil, true}, {"end", "", nil, false}}
+			case 4: // payments exactly equal to the execution fee, alternating with block ends
+				v := int64(ef[0])
+				ops = []lop{{"pay", p0, ukex(v), false}, {"exec", p0, nil, false}, {"exec", p0, nil, false}, {"end", "", nil, false}, {"pay", p0, ukex(v), false}, {"exec", p0, nil, false}, {"end", "", nil, false}, {"exec", p0, nil, false}, {"end", "", nil, false}}
+			default: // random histories, amounts steered to what is still recorded
+				nops := 5 + r.Intn(8)
+				for k := 0; k < nops; k++ {
+					p := payers[r.Intn(len(payers))]
+					switch x := r.Intn(10); {
+					case x < 3:
+						cs := ukex(int64(1 + r.Intn(300)))
+						if r.Chance(35) && len(c.Tokens) > 0 {
+							cs = cs.Add(sdk.NewInt64Coin(c.Tokens[r.Intn(len(c.Tokens))].Denom, int64(1+r.Intn(200))))
+						}
+						ops = append(ops, lop{"pay", p, cs, false})
+					case x < 6:
+						// what is recorded for p right now, valued roughly in ukex
+						rec := int64(0)
+						for _, o := range ops {
+							if o.payer == p && o.kind == "pay" {
+								rec += o.coins.AmountOf("ukex").Int64()
+							}
+						}
+						v := rec + int64(r.Intn(3)) - 1
+						if r.Chance(40) || v <= 0 {
+							v = int64(1 + r.Intn(400))
+						}
+						ops = append(ops, lop{"refund", p, ukex(v), false})
+					case x < 8:
+						ops = append(ops, lop{"exec", p, nil, r.Chance(30)})
+					default:
+						ops = append(ops, lop{"end", "", nil, false})
+					}
+				}
+				ops = append(ops, lop{"end", "", nil, false})
+			}
+			balsCoq := c09lib.BalsCoq(e.Balances(ctx, lw))
+			var opCoq []string
+			var opJS []interface{}
+			for _, o := range ops {
+				before := e.Balances(ctx, lw)
+				cctx, write := ctx.CacheContext()
+				var err error
+				var term string
+				p := hx.Try(func() {
+					switch o.kind {
+					case "pay":
+						term = fmt.Sprintf("LPay %s %s", hx.Str(o.payer), c09lib.CoinsCoq(o.coins))
+						err = fk.SendCoinsFromAccountToModule(cctx, e.AddrOf(o.payer), authtypes.FeeCollectorName, o.coins)
+					case "refund":
+						term = fmt.Sprintf("LRefund %s %s", hx.Str(o.payer), c09lib.CoinsCoq(o.coins))
+						err = fk.SendCoinsFromModuleToAccount(cctx, authtypes.FeeCollectorName, e.AddrOf(o.payer), o.coins)
+					case "exec":
+						term = fmt.Sprintf("LExec \"send\" %s %s", hx.Str(o.payer), hx.B(o.ok))
+						m := &banktypes.MsgSend{FromAddress: e.AddrOf(o.payer).String(), ToAddress: e.CollAdr.String(), Amount: ukex(1)}
+						fk.AddExecutionStart(cctx, m)
+						if o.ok {
+							fk.SetExecutionStatusSuccess(cctx, m)
+						}
+					default:
+						term = "LEnd"
+						fk.ProcessExecutionFeeReturn(cctx)
+					}
+				})
+				class := 0
+				if p != "" {
+					class = 3
+				} else if err != nil {
+					class = 1
+				} else {
+					write()
+				}
+				after := e.Balances(ctx, lw)
+				d := c09lib.Deltas(before, after)
+				opCoq = append(opCoq, hx.Pair("("+term+")", hx.Pair(fmt.Sprint(class), c09lib.DeltasCoq(d))))
+				es := p
+				if err != nil {
+					es = err.Error()
+				}
+				opJS = append(opJS, map[string]interface{}{"op": o.kind, "payer": o.payer, "coins": o.coins.String(), "marked_successful": o.ok, "class": class, "error": es, "balance_deltas": d})
+				dist.Inc("ledger:" + o.kind + fmt.Sprintf(":class%d", class))
+			}
+			lines = append(lines, fmt.Sprintf("CLedger %s %s %s %s %s %s", e.CfgCoq(c), balsCoq, c09lib.StrListCoq(lw), c09lib.StrListCoq(c09lib.Denoms), hx.List(opCoq), e.HistsCoq(ctx, lw)))
+			js = append(js, map[string]interface{}{"kind": "ledger", "level": "feeprocessing keeper: SendCoinsFromAccountToModule / SendCoinsFromModuleToAccount / AddExecutionStart / ProcessExecutionFeeReturn",
+				"pattern": pattern, "tokens": c.JSON()["tokens"], "execution_fee_send": fmt.Sprintf("exec=%d fail=%d", ef[0], ef[1]), "ops": opJS})
+			dist.Inc(fmt.Sprintf("ledger:pattern%d", pattern))
 		}
 	}
 
